@@ -18,7 +18,7 @@ mvars == <<mc>>
 
 \* a case: [mid, args: Seq([name, kind, size]), order: permutation of 1..Len(args) (keyword order of the call),
 \*          named: which special names the condition takes, maxstring, maxlist]
-NonRepresentable == {"cls", "func", "method", "mod", "builtin"}
+NonRepresentable == {"cls", "func", "method", "mod", "modsub", "builtin"}   \* modsub: instance of a subclass of the module type
 Listed(a) == a.kind \notin NonRepresentable
 
 \* length of repr(str of length n) under maxstring m; number of list elements shown under maxlist k
